@@ -129,6 +129,77 @@ def ble_drop_reasons(ctx: Ctx) -> None:
                 res.violation(f"C09/over-bound/{name}", f"{name}: drop reported after 0.01 s, call ended after {rec.t_ret - rec.t_call:.4f}s", case)
 
 
+def short_reject_then_hangup(ctx: Ctx) -> None:
+    """An encrypted-only device answers a plaintext client with the first byte(s) of its reject - 1, 2 or 3 bytes starting with the 0x01
+    indicator - and hangs up (FIN or RST), at once or a moment later; or a peer sends one byte of garbage and hangs up.  The first cause is what
+    the byte says (requires encryption / invalid preamble), not the socket close that follows it."""
+    from aioesphomeapi.core import ProtocolAPIError, RequiresEncryptionAPIError
+    from vf.sim.device import DeviceConfig
+    from vf.sim.scenario import Sim
+
+    res = ctx.res
+    idx = 0
+    for first, want in ((b"\x01", RequiresEncryptionAPIError), (b"\x01\x00", RequiresEncryptionAPIError), (b"\x01\x00\x00", RequiresEncryptionAPIError),
+                        (b"\x42", ProtocolAPIError), (b"\x42\x13", ProtocolAPIError)):
+        for hangup in ("eof", "rst", "none"):
+            for gap in (0.0, 0.01):
+                for stage in ("hello", "session"):
+                    idx += 1
+                    if not ctx.mine(idx):
+                        continue
+                    with Sim() as sim:
+                        cfg = DeviceConfig()
+
+                        def reject(c: Any, m: Any = None, first: bytes = first, hangup: str = hangup, gap: float = gap) -> None:
+                            items: list[tuple[Any, ...]] = [("raw", first)]
+                            if hangup != "none" and gap == 0.0:
+                                items.append(("eof",) if hangup == "eof" else ("rst", ConnectionResetError(104, "Connection reset by peer")))
+                            c.deliver_items(items, 0.001)
+                            if hangup != "none" and gap:
+                                (c.eof if hangup == "eof" else c.rst)(0.001 + gap)
+
+                        if stage == "hello":
+                            cfg.handlers["HelloRequest"] = reject
+                        dev = sim.device(cfg)
+                        cli = sim.client(keepalive=1e5)
+                        c0 = sim.call("connect", lambda: cli.connect(login=False))
+                        sim.run(until=lambda: c0.done, max_time=sim.clock + 200)
+                        if stage == "session":
+                            if c0.outcome != "ok":
+                                res.inconclusive.append(f"short reject: connect failed {c0.exc!r}")
+                                continue
+                            call = sim.call("device_info", lambda: cli.device_info())
+                            cfg.handlers["DeviceInfoRequest"] = reject
+                            sim.run(until=lambda: call.done, max_time=sim.clock + 200)
+                        else:
+                            call = c0
+                        res.evaluations += 1
+                        res.count("baseline/short-reject-then-hangup")
+                        res.count("oracle_evaluations")
+                        res.sigs.add(f"short-reject/{first.hex()}/{hangup}/{gap}/{stage}")
+                        res.count(f"observed/c09/short-reject/{stage}/{first.hex()}/{hangup}/{type(call.exc).__name__ if call.exc else call.outcome}")
+                        case = {"spec": None, "short_reject": {"bytes": first.hex(), "hangup": hangup, "gap": gap, "stage": stage}}
+                        v = sim.conns[0] if sim.conns else None
+                        F1 = v.fatals[0][2] if v is not None and v.fatals else None
+                        if not call.done:
+                            res.violation(f"C09/hang/{call.name}", f"peer sent {first.hex()} then {hangup}: {call.name}() still pending 200 s later", case, trace=sim.trace(30))
+                            continue
+                        if not isinstance(F1, want):
+                            res.violation(f"C09/first-cause-class/short-reject/{first[:1].hex()}", f"peer sent the byte(s) {first.hex()} and then hung up ({hangup}, {gap}s later): "
+                                          f"first fatal cause {F1!r}, expected {want.__name__}", case, trace=sim.trace(30))
+                        elif call.outcome != "raised" or not (isinstance(call.exc, want) or F1 in _chain(call.exc)):
+                            res.violation(f"C09/first-cause-masked/{call.name}", f"peer sent {first.hex()} then {hangup}: {call.name}() ended {call.outcome} {call.exc!r}, "
+                                          f"first fatal cause {F1!r}", case, trace=sim.trace(30))
+
+
+def _chain(e: Any) -> list[Any]:
+    out = []
+    while e is not None and len(out) < 6:
+        out.append(e)
+        e = e.__cause__
+    return out
+
+
 def stalled_writer_bounds(ctx: Ctx) -> None:
     """The device stops reading while the client has a lot queued (the transport passes its high-water mark and pauses the protocol): awaited
     calls made then - a request-response call, disconnect() - still end within their bound with a library error; nothing hangs."""
@@ -246,6 +317,7 @@ def overlapping_disconnects(ctx: Ctx) -> None:
 
 
 def shard(ctx: Ctx) -> None:
+    short_reject_then_hangup(ctx)
     stalled_writer_bounds(ctx)
     overlapping_disconnects(ctx)
     ble_time_bounds(ctx)
